@@ -35,7 +35,7 @@ func init() {
 		Run: run,
 		Floors: func(t string) map[string]int64 {
 			return map[string]int64{"api.struct": 100, "api.fields": 100, "kind.Point": 8, "kind.MultiPoint": 8, "kind.LineString": 8, "kind.MultiLineString": 8, "kind.Polygon": 8, "kind.*Bounds": 8,
-				"records.compared": 3000, "string.last_column": 50, "string.with_edge_blanks": 200, "ring.unclosed": 200, "ring.unclosed_by_a_hair": 100, "file.empty": 3, "column.string": 100, "column.int": 100, "column.float": 100, "string.at_field_width": 20, "schema.crossed_tags_and_names": 20, "decode.alternating_record_types": 30, "box.degenerate": 50, "schema.eleven_byte_names_sharing_ten": 20, "schema.names_longer_than_the_dbf_field": 20, "schema.long_name_cut_inside_a_two_byte_letter": 8, "schema.tag_names_no_column_but_the_field_name_does": 100, "schema.names_the_file_stores_differently": 8, "file.more_than_1000_records": 1}
+				"records.compared": 3000, "string.last_column": 50, "string.with_edge_blanks": 200, "ring.unclosed": 200, "ring.unclosed_by_a_hair": 100, "file.empty": 3, "column.string": 100, "column.int": 100, "column.float": 100, "string.at_field_width": 20, "schema.crossed_tags_and_names": 20, "decode.alternating_record_types": 30, "decode.some_records_geometry_only": 60, "box.degenerate": 50, "schema.eleven_byte_names_sharing_ten": 20, "schema.names_longer_than_the_dbf_field": 20, "schema.long_name_cut_inside_a_two_byte_letter": 8, "schema.tag_names_no_column_but_the_field_name_does": 100, "schema.names_the_file_stores_differently": 8, "file.more_than_1000_records": 1}
 		},
 	})
 }
@@ -436,7 +436,7 @@ func run(c *core.Ctx, idx int) {
 		c.Count("file.more_than_1000_records")
 	}
 	geomPos := r.Intn(len(cols) + 1) // position of the geometry field in the struct
-	withNil := false // a nil geometry is outside the property (and go-shp cannot write a Null record into a typed file)
+	withNil := false                 // a nil geometry is outside the property (and go-shp cannot write a Null record into a typed file)
 	var recs []record
 	for i := 0; i < nrec; i++ {
 		rec := record{g: genGeom(c, r, kind)}
@@ -614,10 +614,20 @@ func run(c *core.Ctx, idx int) {
 			}
 		}
 		n := 0
+		peek := r.Chance(0.25) // some records are read for their geometry only: DecodeRowFields without names
+		if peek {
+			c.Count("decode.some_records_geometry_only")
+		}
 		for {
 			var g geom.Geom
 			got := make([]interface{}, len(cols))
-			if structAPI {
+			if peek && r.Chance(0.35) {
+				gg, _, more := d.DecodeRowFields()
+				if !more {
+					break
+				}
+				g, got = gg, nil
+			} else if structAPI {
 				dt := decT
 				if n%2 == 1 {
 					dt = decT2
@@ -678,7 +688,10 @@ func compare(c *core.Ctx, api, kind string, cols []column, n int, want record, g
 		}
 		c.Violate("geometry:"+kind+":"+api, fmt.Sprintf("record %d (%s): geometry differs: %s", n, kind, why), d)
 	}
-	// attributes
+	// attributes (not for a record that was read for its geometry only)
+	if got == nil {
+		return
+	}
 	for k, col := range cols {
 		w := want.vals[k]
 		last := k == len(cols)-1
